@@ -57,7 +57,33 @@ def input_frame(L: int, fault=None, fault_row=None, patch_ids=False):
             df.loc[r, "pid"] = 65537
         elif fault == "pid_wrap_neg":
             df.loc[r, "pid"] = -65535
+        elif fault == "pid_nan":       # an integer column with a missing entry arrives as float64 with NaN
+            df["pid"] = df["pid"].astype(np.float64)
+            df.loc[r, "pid"] = np.nan
     return df
+
+
+class InterruptingFrame:
+    """A data frame whose chunk containing ``row`` cannot be fetched: the process gets a
+    KeyboardInterrupt (Ctrl-C / SIGINT) - a BaseException, not an Exception - at that point."""
+
+    def __init__(self, df, row: int) -> None:
+        self._df, self._row = df, row
+
+    def __len__(self) -> int:
+        return len(self._df)
+
+    @property
+    def columns(self):
+        return self._df.columns
+
+    def __getitem__(self, item):
+        if isinstance(item, slice) and (item.start or 0) <= self._row < (len(self._df) if item.stop is None else item.stop):
+            raise KeyboardInterrupt("interrupted while fetching a chunk")
+        return self._df[item]
+
+    def __getattr__(self, name):
+        return getattr(self._df, name)
 
 
 def centres(yaw, empty_centre: bool):
@@ -197,9 +223,10 @@ def run_creation(yaw, root: Path, *, L, CS, W, pre="absent", overwrite=False, fa
     if fault == "missing_column":
         kw["redshift_name"] = "nosuchcolumn"
     before = snapshot(path)
+    source = InterruptingFrame(df, fault_row) if fault == "interrupt" else df
 
     def main():
-        cat = yaw.Catalog.from_dataframe(path, df, **kw)
+        cat = yaw.Catalog.from_dataframe(path, source, **kw)
         return dict(records=records_of(cat), keys=list(cat.keys()),
                     centers=cat.get_centers().data.tolist(), num=list(cat.get_num_records()))
 
